@@ -204,11 +204,20 @@ func mergedLogsHarness(k int, kinds bool, suppress bool) {
 		for _, kk := range keys {
 			if len(recs) < 2 && VerifChoose(2) == 1 {
 				l := kk
-				if !kinds || VerifChoose(2) == 1 {
+				kind := 1
+				if kinds {
+					kind = VerifChoose(3)
+				}
+				switch kind {
+				case 1:
 					l.Time = uint64(t + 1)
 					l.Message = "m"
 					l.New, l.Old = make([]byte, 20), make([]byte, 20)
 					l.New[0] = VerifU8()
+				case 2:
+					// an entry that carries only who and when (no hashes, no message): an entry, not a deletion
+					l.Time = uint64(t + 1)
+					l.Name = "n"
 				}
 				recs = append(recs, l)
 			}
@@ -259,7 +268,7 @@ func Harness_C03_logs() {
 }
 
 // Harness_C03_logs_deletions: reflog deletion records hide older entries; the stack view drops them.
-// bounds: 1..2 stub tables, subsets as above, every entry a record or a deletion; both views; the caller reads every entry into one and the same LogRecord
+// bounds: 1..2 stub tables, subsets as above, every entry a full record, a record without hashes and message (identity and time only), or a deletion; both views; the caller reads every entry into one and the same LogRecord
 // covers: done
 func Harness_C03_logs_deletions() {
 	mergedLogsHarness(VerifIntRange(1, 2), true, VerifChoose(2) == 1)
